@@ -220,6 +220,7 @@ static long w_sems;            /* sem_open handles not yet closed */
 sem_t *__real_sem_open (const char *name, int oflag, ...);
 sem_t *__wrap_sem_open (const char *name, int oflag, ...) {
 	sem_t *r;
+	if (a_on && take_fail ("sem_open")) { errno = EMFILE; return SEM_FAILED; }
 	if (oflag & O_CREAT) {
 		va_list ap; va_start (ap, oflag);
 		mode_t mode = va_arg (ap, mode_t); unsigned value = va_arg (ap, unsigned);
@@ -244,6 +245,15 @@ int __real_shm_open (const char *name, int oflag, mode_t mode);
 int __wrap_shm_open (const char *name, int oflag, mode_t mode) {
 	if (a_on && take_fail ("shm_open")) { errno = EACCES; return -1; }
 	return __real_shm_open (name, oflag, mode);
+}
+/* fcntl: F_SETFL can be scripted to fail (pp_socket_set_fd_blocking: the error exit of a socket whose descriptor is already open) */
+int __real_fcntl (int fd, int cmd, ...);
+int __wrap_fcntl (int fd, int cmd, ...) {
+	va_list ap; va_start (ap, cmd);
+	long arg = va_arg (ap, long);
+	va_end (ap);
+	if (a_on && cmd == F_SETFL && take_fail ("fcntl")) { errno = EINVAL; return -1; }
+	return __real_fcntl (fd, cmd, arg);
 }
 int __real_socket (int d, int t, int p);
 int __wrap_socket (int d, int t, int p) {
@@ -1176,6 +1186,14 @@ STD (sock_udp, "sock_new 0 1 9", "sock_listen 0 9", "sock_udp_echo 0 1 9", "sa_f
 STD (sock_from_fd, "sock_from_fd 0 9", "sock_remote 0 1 9", "sa_free 1", "sock_free 0", "err_free 9")
 STD (sock_bad, "sock_bad 9", "err_free 9", "sock_bad x")
 STD (sock_syscall_fail, "sysfail socket", "sock_new 0 0 9", "sock_free 0", "err_free 9")
+STD (sock_fcntl_fail, "sysfail fcntl", "sock_new 0 0 9", "sock_free 0", "sock_new 0 1 9", "sock_free 0", "err_free 9")
+STD (sock_fcntl_fail_fromfd, "sysfail fcntl", "sock_from_fd 0 9", "sock_free 0", "sock_from_fd 0 9", "sock_free 0", "err_free 9")
+STD (sock_fcntl_fail_accept, "sock_new 0 0 9", "sock_listen 0 9", "sock_new 1 0 9", "sock_connect 1 0 9", "sysfail fcntl", "sock_accept 0 2 9", "sock_free 2",
+     "sock_new 3 0 9", "sock_connect 3 0 9", "sock_accept 0 2 9", "sock_free 3", "sock_free 2", "sock_free 1", "sock_free 0", "err_free 9")
+STD (sem_open_fail, "sysfail sem_open", "sem_new 0 0 1 9", "sem_free 0", "sem_new 0 0 0 9", "sysfail sem_open", "sem_new 1 0 0 9", "sem_free 1", "sem_free 0", "err_free 9")
+STD (sem_recreate, "sem_new 0 0 0 9", "sem_new 1 0 1 9", "sem_cycle 1 9", "sem_cycle 0 9", "sem_free 1", "sem_new 2 0 1 9", "sem_free 0", "sem_free 2", "err_free 9")
+STD (shm_lock_sem_open_fail, "sysfail sem_open", "shm_new 0 0 0 9", "shm_free 0", "shm_new 0 0 0 9", "sysfail sem_open", "shm_new 1 0 0 9", "shm_free 1",
+     "shm_cycle 0 9", "shm_free 0", "sysfail sem_open", "shmbuf_new 2 1 0 9", "shmbuf_free 2", "err_free 9")
 STD (sem_basic, "sem_new 0 0 1 9", "sem_cycle 0 9", "sem_free 0", "err_free 9")
 STD (sem_two, "sem_new 0 0 0 9", "sem_new 1 0 0 9", "sem_free 1", "sem_free 0", "err_free 9")
 STD (sem_own, "sem_new 0 0 0 9", "sem_new 1 0 0 9", "sem_free 0", "sem_own 1", "sem_free 1", "err_free 9")
@@ -1296,6 +1314,7 @@ static const struct { const char *name; void (*fn) (void); } SCENARIOS[] = {
 	E (dir_basic), E (dir_entries), E (dir_missing), E (file_missing),
 	E (sa_v4), E (sa_v6), E (sa_bad), E (sa_misc),
 	E (sock_basic), E (sock_tcp_pair), E (sock_refused), E (sock_connect_timeout), E (sock_accept_timeout), E (sock_udp), E (sock_from_fd), E (sock_bad), E (sock_syscall_fail),
+	E (sock_fcntl_fail), E (sock_fcntl_fail_fromfd), E (sock_fcntl_fail_accept), E (sem_open_fail), E (sem_recreate), E (shm_lock_sem_open_fail),
 	E (sem_basic), E (sem_two), E (sem_own),
 	E (shm_basic), E (shm_two_equal), E (shm_two_smaller), E (shm_two_larger), E (shm_mmap_fail), E (shm_ftruncate_fail), E (shm_open_fail), E (shm_zero_size),
 	E (shmbuf_basic), E (shmbuf_two), E (shmbuf_two_diff), E (shmbuf_small),
